@@ -593,6 +593,49 @@ type ListOutcome struct {
 	Err   error
 	Code  string
 	Panic string
+	// Hung: the request did not return within HangAfter (far beyond every server-side deadline the
+	// harness configures); the call's goroutine is abandoned. Err is ErrHung. Never an answer to judge.
+	Hung bool
+}
+
+// HangAfter is the per-request watchdog of ListObjects / StreamedListObjects (the harness's servers
+// have list deadlines of at most 40 s). Its firing is a watchdog observation, not a verdict: callers
+// count the request as inconclusive unless termination is their subject (C20, C21).
+var HangAfter = 60 * time.Second
+
+// ErrHung is the Err of a ListOutcome whose request was abandoned by the watchdog.
+var ErrHung = errors.New("verif: request abandoned by the harness watchdog (did not return)")
+
+var hangCount atomic.Int64
+
+// HangCount is the number of list requests abandoned by the watchdog in this process.
+func HangCount() int64 { return hangCount.Load() }
+
+func hungOutcome() ListOutcome {
+	hangCount.Add(1)
+	return ListOutcome{Err: ErrHung, Code: "hung", Hung: true}
+}
+
+// hungShapes remembers (server, store, type, relation) of abandoned list requests: further requests
+// for the same relation on the same server are not sent again (each would cost HangAfter and leak the
+// goroutines of another request); they are reported as Hung too.
+var hungShapes sync.Map
+
+func (s *Srv) hangKey(r Req) string {
+	return fmt.Sprintf("%p|%s|%s|%s", s, r.Store, r.Object, r.Relation)
+}
+
+func (s *Srv) watchedList(r Req, f func(Req) ListOutcome) ListOutcome {
+	k := s.hangKey(r)
+	if _, ok := hungShapes.Load(k); ok {
+		return hungOutcome()
+	}
+	var out ListOutcome
+	if !Watch(HangAfter, func() { out = f(r) }) {
+		hungShapes.Store(k, true)
+		return hungOutcome()
+	}
+	return out
 }
 
 func listOutcome(items []string, err error) ListOutcome {
@@ -606,6 +649,10 @@ func listOutcome(items []string, err error) ListOutcome {
 
 // ListObjects runs Server.ListObjects (Object field of r is the object *type*).
 func (s *Srv) ListObjects(r Req) ListOutcome {
+	return s.watchedList(r, s.listObjects)
+}
+
+func (s *Srv) listObjects(r Req) ListOutcome {
 	ctx, cancel := r.ctx()
 	defer cancel()
 	var items []string
@@ -800,6 +847,10 @@ func (s *loStream) RecvMsg(m any) error          { return nil }
 
 // StreamedListObjects runs Server.StreamedListObjects with a collecting stream.
 func (s *Srv) StreamedListObjects(r Req) ListOutcome {
+	return s.watchedList(r, s.streamedListObjects)
+}
+
+func (s *Srv) streamedListObjects(r Req) ListOutcome {
 	ctx, cancel := r.ctx()
 	defer cancel()
 	st := &loStream{ctx: ctx}
